@@ -66,6 +66,17 @@ theorem storedCount_le_capacity (m : Machine) (line : String) :
 theorem storedCount_eof (m : Machine) : storedCount m "" = 0 := by
   simp [storedCount, trimLineEnd]
 
+/-- **AH=0Ah at end of input**: the stored count becomes 0 — whatever count an earlier read or the program had
+    left at DS:DX+1 — and nothing else is written, no output, no input consumed (seed W8A: a shared line reader
+    that returned early at end of input left the stale count in place) -/
+theorem ah0A_eof_count (m : Machine) :
+    int21 m 0x0A#8 [] = (m.writeByte ((m.ds.toNat * 16 + m.dx.toNat + 1) % MB) 0#8, "", []) := by
+  have e1 : ((0x0A#8 : BitVec 8) == 0x01#8) = false := by decide
+  have e2 : ((0x0A#8 : BitVec 8) == 0x02#8) = false := by decide
+  have ht : (trimLineEnd "").toUTF8.toList = [] := by decide +kernel
+  simp only [int21, e1, e2, Bool.false_eq_true, if_false, beq_self_eq_true, if_true, ht, List.length_nil, Nat.zero_min,
+    List.take_nil, List.zipIdx_nil, List.foldl_nil]
+
 /-- every address the services use is reduced modulo 2^20 -/
 theorem addr_in_range (x : Nat) : x % MB < 1048576 := by
   rw [MB_eq]; exact Nat.mod_lt _ (by decide)
